@@ -88,6 +88,7 @@ type Output struct {
 	Configs map[string][][2]string // config name -> allowed list
 	Flags   map[string]string      // config name -> -checks argument ("" = flag absent)
 	Cli     []CCase
+	Runner  []RCase
 	Sources map[string]string // variant -> concatenated source (for replay files)
 }
 
@@ -406,5 +407,6 @@ func main() {
 	o.Inproc = genInproc(rnd.Fork(), *nin)
 	o.Parse = runParse(rnd.Fork(), *npar)
 	runCli(rnd.Fork(), *work, *nvar, *allRuns, &o)
+	o.Runner = runRunner(rnd.Fork(), *work)
 	hx.EmitJSON(*out, o)
 }
